@@ -15,4 +15,8 @@ def build(run):
     lifecycle.lifecycle_scans(run)
     lifecycle.verify_no_modification(run)
     lifecycle.verify_maintask_addon(run)
+    from specs import outputfunc, outputasync
+    outputfunc.verify_outputfunc(run)
+    outputfunc.verify_outputfunc_stop(run)      # stop_data delivered as the last action of an output block
+    outputasync.verify_stop_start(run)
     run.replayer('Circuit._run_tasks/raises:cancelled_while_waiting/post2', lambda run_, ob, model: open('/verif/specs/replay_c08a.py').read())
